@@ -143,6 +143,8 @@ DetTol(T, n, absSD, rho, delta) ==
     IF T = "f64" THEN 1
     ELSE 2 + (((((absSD \div 8192) + 1) * (DetC * n) * rho) \div delta) \div 1024)
 Pow2(k) == Pow(2, k)
+\* (the harness logs 1999999999 for NaN / infinite / huge results: rejected before any arithmetic could overflow)
 DetWithin(q, D, ls, T, n, rho, delta) ==
-    Abs(q - Pow2(ls) * D) <= DetTol(T, n, Pow2(ls) * Abs(D), rho, delta)
+    /\ Abs(q) < 1000000000
+    /\ Abs(q - Pow2(ls) * D) <= DetTol(T, n, Pow2(ls) * Abs(D), rho, delta)
 =====================================================================================
